@@ -38,6 +38,12 @@ UVL_OPERATORS: dict[ASTOperation, str] = {ASTOperation.AND: "&",
                                           ASTOperation.XOR: ASTOperation.XOR.value  # Not soported
                                           }
 
+# Reserved words of the language: a feature with one of these names has to be quoted
+UVL_KEYWORDS = {'include', 'namespace', 'imports', 'as', 'features', 'cardinality', 'constraint',
+                'constraints', 'sum', 'avg', 'len', 'floor', 'ceil', 'String', 'Integer', 'Real',
+                'Boolean', 'Arithmetic', 'Type', 'or', 'alternative', 'optional', 'mandatory',
+                'true', 'false'}
+
 
 class UVLWriter(ModelToText):
     @staticmethod
@@ -162,7 +168,11 @@ def safename(name: str) -> str:
 def safe_simple_name(name: str) -> str:
     if name.startswith("'") and name.endswith("'"):
         return name
-    return f'"{name}"' if any(char not in safecharacters() for char in name) else name
+    if (name in UVL_KEYWORDS
+            or name[:1] not in string.ascii_letters
+            or any(char not in safecharacters() for char in name)):
+        return f'"{name}"'
+    return name
 
 
 def safecharacters() -> str:
